@@ -269,7 +269,7 @@ func genFlags(t *rapid.T, label string, min int) []imap.Flag {
 	return fl
 }
 
-var zones = []*time.Location{time.UTC, time.FixedZone("", 5*3600+1800), time.FixedZone("", -8*3600), time.FixedZone("", 14*3600)}
+var zones = []*time.Location{time.UTC, time.FixedZone("", 5*3600+1800), time.FixedZone("", -8*3600), time.FixedZone("", 14*3600), time.FixedZone("PDT", -7*3600), time.FixedZone("CEST", 2*3600)}
 
 func genTime(t *rapid.T, label string) time.Time {
 	loc := rapid.SampledFrom(zones).Draw(t, label+".zone")
